@@ -150,7 +150,7 @@ def runEntries (U : List Site) (B : Nat) (nobody : List Int) :
     let oracle : Glob → Frame Unit → Nat → List (Int × List Int) := fun _ _ t => e.script.getD t []
     let R := scriptRunner U B oracle
     let G0 : Glob := { cnt := fun _ => 0, paths := ps }
-    let (evs, G) := driver R (fun m => !nobody.contains m) (fun _ => ()) [entryFrame (fun _ => ()) e.entry] G0 0
+    let (evs, G) := driver R (fun _ f _ => !nobody.contains f.method) (fun _ => ()) [entryFrame (fun _ => ()) e.entry] G0 0
     let out := Json.mkObj [
       ("entry", jInt e.entry),
       ("events", jList jDEv evs),
